@@ -582,4 +582,276 @@ theorem slabAfter_frame (bs : List Bytes) : ∀ (slab : Bytes) (s : Slice), s.of
       exact ⟨this.1, this.2.1.trans A5, this.2.2.trans A6⟩
     · simp [hfit]
 
+/-! ### ownership -/
+
+set_option linter.unusedSimpArgs false
+
+/-- the state field and the recorded holder agree with the container -/
+def Cons (s : Sys) : Prop :=
+  ∀ k, (k ∈ s.idle → s.state k = .free ∧ s.holder k = .cache) ∧
+       (k ∈ s.armed → s.state k = .reading ∧ ∃ r, s.holder k = .reader r) ∧
+       (k ∈ s.ready → s.state k = .queued ∧ s.holder k = .queue) ∧
+       (k ∈ s.serving → s.state k = .serving ∧ ((∃ r, s.holder k = .reader r) ∨ ∃ w, s.holder k = .worker w))
+
+def SInv (s : Sys) : Prop := s.all.Nodup ∧ Cons s
+
+theorem counts_le_one (s : Sys) (hn : s.all.Nodup) (k : Nat) :
+    s.idle.count k + s.armed.count k + s.ready.count k + s.serving.count k ≤ 1 := by
+  have := (List.nodup_iff_count.mp hn) k
+  simp only [Sys.all, List.count_append] at this
+  omega
+
+theorem mem_iff_count {l : List Nat} {k : Nat} : k ∈ l ↔ 0 < l.count k := List.count_pos_iff.symm
+
+theorem not_mem_erase_self {l : List Nat} {j : Nat} (h : l.count j ≤ 1) : j ∉ l.erase j := by
+  rw [← List.count_eq_zero, List.count_erase_self]; omega
+
+theorem count_erase_add (l : List Nat) (j k : Nat) (h : j ∈ l) :
+    (l.erase j).count k + (if j = k then 1 else 0) = l.count k := by
+  have hp := mem_iff_count.mp h
+  rw [List.count_erase]
+  by_cases hjk : j = k
+  · subst hjk; simp; omega
+  · simp [hjk]
+
+theorem count_cons' (l : List Nat) (j k : Nat) : (j :: l).count k = l.count k + (if j = k then 1 else 0) := by
+  rw [List.count_cons]; simp
+
+theorem count_snoc (l : List Nat) (j k : Nat) : (l ++ [j]).count k = l.count k + (if j = k then 1 else 0) := by
+  rw [List.count_append, count_cons']; simp
+
+theorem apply_perm (s : Sys) (st : Step) (he : st.enabled s = true) : (st.apply s).all.Perm s.all := by
+  rw [List.perm_iff_count]
+  intro k
+  cases st with
+  | take j r =>
+    simp only [Step.enabled, Bool.and_eq_true, List.contains_iff_mem, beq_iff_eq] at he
+    have := count_erase_add s.idle j k he.1
+    simp only [Step.apply, Sys.all, List.count_append, count_cons']
+    omega
+  | readFail j r =>
+    simp only [Step.enabled, Bool.and_eq_true, List.contains_iff_mem, beq_iff_eq] at he
+    have := count_erase_add s.armed j k he.1.1
+    simp only [Step.apply, Sys.all, List.count_append, count_cons']
+    omega
+  | enqueue j r =>
+    simp only [Step.enabled, Bool.and_eq_true, List.contains_iff_mem, beq_iff_eq] at he
+    have := count_erase_add s.armed j k he.1.1
+    simp only [Step.apply, Sys.all, List.count_append, count_cons', List.count_nil]
+    omega
+  | serveBegin j w =>
+    simp only [Step.enabled, Bool.and_eq_true, List.contains_iff_mem, beq_iff_eq] at he
+    have := count_erase_add s.ready j k he.1
+    simp only [Step.apply, Sys.all, List.count_append, count_cons']
+    omega
+  | finish j a =>
+    simp only [Step.enabled, Bool.and_eq_true, List.contains_iff_mem, beq_iff_eq] at he
+    have := count_erase_add s.serving j k he.1.1
+    simp only [Step.apply, Sys.all, List.count_append, count_cons']
+    omega
+  | inlineBegin j r =>
+    simp only [Step.enabled, Bool.and_eq_true, List.contains_iff_mem, beq_iff_eq] at he
+    have := count_erase_add s.armed j k he.1.1
+    simp only [Step.apply, Sys.all, List.count_append, count_cons']
+    omega
+  | handoff j r =>
+    simp only [Step.enabled, Bool.and_eq_true, List.contains_iff_mem, beq_iff_eq] at he
+    have := count_erase_add s.serving j k he.1.1
+    simp only [Step.apply, Sys.all, List.count_append, count_cons', List.count_nil]
+    omega
+
+theorem setAt_self {α : Type} (f : Nat → α) (j : Nat) (v : α) : setAt f j v j = v := by simp [setAt]
+theorem setAt_ne {α : Type} (f : Nat → α) (j k : Nat) (v : α) (h : k ≠ j) : setAt f j v k = f k := by simp [setAt, h]
+
+theorem apply_cons (s : Sys) (st : Step) (hi : SInv s) (he : st.enabled s = true) : Cons (st.apply s) := by
+  obtain ⟨hn, hc⟩ := hi
+  cases st with
+  | take j r =>
+    simp only [Step.enabled, Bool.and_eq_true, List.contains_iff_mem, beq_iff_eq] at he
+    intro k
+    have C := hc k
+    have Cj := hc j
+    have N := counts_le_one s hn j
+    have hj1 := mem_iff_count.mp he.1
+    by_cases hk : k = j
+    · subst hk
+      have e1 : k ∉ s.idle.erase k := not_mem_erase_self (by omega)
+      have e2 : k ∉ s.ready := by rw [← List.count_eq_zero]; omega
+      have e3 : k ∉ s.serving := by rw [← List.count_eq_zero]; omega
+      simp_all [Step.apply, setAt_self]
+    · simp only [Step.apply, setAt_ne _ _ _ _ hk, List.mem_erase_of_ne hk, List.mem_cons, List.mem_append, List.mem_singleton, List.not_mem_nil, hk, false_or, or_false]
+      exact C
+  | readFail j r =>
+    simp only [Step.enabled, Bool.and_eq_true, List.contains_iff_mem, beq_iff_eq] at he
+    intro k
+    have C := hc k
+    have Cj := hc j
+    have N := counts_le_one s hn j
+    have hj1 := mem_iff_count.mp he.1.1
+    by_cases hk : k = j
+    · subst hk
+      have e1 : k ∉ s.armed.erase k := not_mem_erase_self (by omega)
+      have e2 : k ∉ s.ready := by rw [← List.count_eq_zero]; omega
+      have e3 : k ∉ s.serving := by rw [← List.count_eq_zero]; omega
+      simp_all [Step.apply, setAt_self]
+    · simp only [Step.apply, setAt_ne _ _ _ _ hk, List.mem_erase_of_ne hk, List.mem_cons, List.mem_append, List.mem_singleton, List.not_mem_nil, hk, false_or, or_false]
+      exact C
+  | enqueue j r =>
+    simp only [Step.enabled, Bool.and_eq_true, List.contains_iff_mem, beq_iff_eq] at he
+    intro k
+    have C := hc k
+    have Cj := hc j
+    have N := counts_le_one s hn j
+    have hj1 := mem_iff_count.mp he.1.1
+    by_cases hk : k = j
+    · subst hk
+      have e1 : k ∉ s.armed.erase k := not_mem_erase_self (by omega)
+      have e2 : k ∉ s.idle := by rw [← List.count_eq_zero]; omega
+      have e3 : k ∉ s.serving := by rw [← List.count_eq_zero]; omega
+      simp_all [Step.apply, setAt_self]
+    · simp only [Step.apply, setAt_ne _ _ _ _ hk, List.mem_erase_of_ne hk, List.mem_cons, List.mem_append, List.mem_singleton, List.not_mem_nil, hk, false_or, or_false]
+      exact C
+  | serveBegin j w =>
+    simp only [Step.enabled, Bool.and_eq_true, List.contains_iff_mem, beq_iff_eq] at he
+    intro k
+    have C := hc k
+    have Cj := hc j
+    have N := counts_le_one s hn j
+    have hj1 := mem_iff_count.mp he.1
+    by_cases hk : k = j
+    · subst hk
+      have e1 : k ∉ s.ready.erase k := not_mem_erase_self (by omega)
+      have e2 : k ∉ s.idle := by rw [← List.count_eq_zero]; omega
+      have e3 : k ∉ s.armed := by rw [← List.count_eq_zero]; omega
+      simp_all [Step.apply, setAt_self]
+    · simp only [Step.apply, setAt_ne _ _ _ _ hk, List.mem_erase_of_ne hk, List.mem_cons, List.mem_append, List.mem_singleton, List.not_mem_nil, hk, false_or, or_false]
+      exact C
+  | finish j a =>
+    simp only [Step.enabled, Bool.and_eq_true, List.contains_iff_mem, beq_iff_eq] at he
+    intro k
+    have C := hc k
+    have Cj := hc j
+    have N := counts_le_one s hn j
+    have hj1 := mem_iff_count.mp he.1.1
+    by_cases hk : k = j
+    · subst hk
+      have e1 : k ∉ s.serving.erase k := not_mem_erase_self (by omega)
+      have e2 : k ∉ s.armed := by rw [← List.count_eq_zero]; omega
+      have e3 : k ∉ s.ready := by rw [← List.count_eq_zero]; omega
+      simp_all [Step.apply, setAt_self]
+    · simp only [Step.apply, setAt_ne _ _ _ _ hk, List.mem_erase_of_ne hk, List.mem_cons, List.mem_append, List.mem_singleton, List.not_mem_nil, hk, false_or, or_false]
+      exact C
+  | inlineBegin j r =>
+    simp only [Step.enabled, Bool.and_eq_true, List.contains_iff_mem, beq_iff_eq] at he
+    intro k
+    have C := hc k
+    have Cj := hc j
+    have N := counts_le_one s hn j
+    have hj1 := mem_iff_count.mp he.1.1
+    by_cases hk : k = j
+    · subst hk
+      have e1 : k ∉ s.armed.erase k := not_mem_erase_self (by omega)
+      have e2 : k ∉ s.idle := by rw [← List.count_eq_zero]; omega
+      have e3 : k ∉ s.ready := by rw [← List.count_eq_zero]; omega
+      simp_all [Step.apply, setAt_self]
+    · simp only [Step.apply, setAt_ne _ _ _ _ hk, List.mem_erase_of_ne hk, List.mem_cons, List.mem_append, List.mem_singleton, List.not_mem_nil, hk, false_or, or_false]
+      exact C
+  | handoff j r =>
+    simp only [Step.enabled, Bool.and_eq_true, List.contains_iff_mem, beq_iff_eq] at he
+    intro k
+    have C := hc k
+    have Cj := hc j
+    have N := counts_le_one s hn j
+    have hj1 := mem_iff_count.mp he.1.1
+    by_cases hk : k = j
+    · subst hk
+      have e1 : k ∉ s.serving.erase k := not_mem_erase_self (by omega)
+      have e2 : k ∉ s.idle := by rw [← List.count_eq_zero]; omega
+      have e3 : k ∉ s.armed := by rw [← List.count_eq_zero]; omega
+      simp_all [Step.apply, setAt_self]
+    · simp only [Step.apply, setAt_ne _ _ _ _ hk, List.mem_erase_of_ne hk, List.mem_cons, List.mem_append, List.mem_singleton, List.not_mem_nil, hk, false_or, or_false]
+      exact C
+
+theorem step_inv (s : Sys) (st : Step) (hi : SInv s) : SInv (s.step st) := by
+  unfold Sys.step
+  by_cases he : st.enabled s = true
+  · simp only [he, if_true]
+    exact ⟨((apply_perm s st he).nodup_iff).mpr hi.1, apply_cons s st hi he⟩
+  · simp only [he, if_false]; exact hi
+
+theorem step_perm (s : Sys) (st : Step) : (s.step st).all.Perm s.all := by
+  unfold Sys.step
+  by_cases he : st.enabled s = true
+  · simp only [he, if_true]; exact apply_perm s st he
+  · simp only [he, if_false]; exact List.Perm.refl _
+
+theorem run_inv (l : List Step) : ∀ s, SInv s → SInv (s.run l) ∧ (s.run l).all.Perm s.all := by
+  induction l with
+  | nil => intro s hi; exact ⟨hi, List.Perm.refl _⟩
+  | cons st t ih =>
+    intro s hi
+    have := ih (s.step st) (step_inv s st hi)
+    exact ⟨this.1, this.2.trans (step_perm s st)⟩
+
+theorem init_inv (n : Nat) : SInv (Sys.init n) := by
+  refine ⟨?_, ?_⟩
+  · simp [Sys.init, Sys.all, List.nodup_range]
+  · intro k; simp [Sys.init]
+
+/-- a slab in a goroutine's hands (armed or being served) can only be moved
+by the goroutine recorded as its holder -/
+theorem enabled_actor (s : Sys) (st : Step) (hi : SInv s) (he : st.enabled s = true)
+    (hh : st.slab ∈ s.armed ∨ st.slab ∈ s.serving) : st.actor = s.holder st.slab := by
+  obtain ⟨hn, _⟩ := hi
+  cases st with
+  | take j r =>
+    simp only [Step.enabled, Bool.and_eq_true, List.contains_iff_mem, beq_iff_eq] at he
+    have N := counts_le_one s hn j
+    have h1 := mem_iff_count.mp he.1
+    simp only [Step.slab] at hh
+    rcases hh with h | h <;> (have := mem_iff_count.mp h; omega)
+  | serveBegin j w =>
+    simp only [Step.enabled, Bool.and_eq_true, List.contains_iff_mem, beq_iff_eq] at he
+    have N := counts_le_one s hn j
+    have h1 := mem_iff_count.mp he.1
+    simp only [Step.slab] at hh
+    rcases hh with h | h <;> (have := mem_iff_count.mp h; omega)
+  | readFail j r =>
+    simp only [Step.enabled, Bool.and_eq_true, List.contains_iff_mem, beq_iff_eq] at he
+    exact he.1.2.symm
+  | enqueue j r =>
+    simp only [Step.enabled, Bool.and_eq_true, List.contains_iff_mem, beq_iff_eq] at he
+    exact he.1.2.symm
+  | finish j a =>
+    simp only [Step.enabled, Bool.and_eq_true, List.contains_iff_mem, beq_iff_eq] at he
+    exact he.1.2.symm
+  | inlineBegin j r =>
+    simp only [Step.enabled, Bool.and_eq_true, List.contains_iff_mem, beq_iff_eq] at he
+    exact he.1.2.symm
+  | handoff j r =>
+    simp only [Step.enabled, Bool.and_eq_true, List.contains_iff_mem, beq_iff_eq] at he
+    exact he.1.2.symm
+
+
+/-! ### shared lookup -/
+
+theorem shareAll_spec (leader : Msg) (ids : List Nat) : ∀ next, leader.addr < next →
+    (shareAll leader ids next).map (·.id) = ids ∧
+    (∀ m ∈ shareAll leader ids next, next ≤ m.addr ∧ m.body = leader.body) ∧
+    ((shareAll leader ids next).map (·.addr)).Nodup := by
+  induction ids with
+  | nil => intro next _; simp [shareAll]
+  | cons id t ih =>
+    intro next hlt
+    obtain ⟨I1, I2, I3⟩ := ih (next + 1) (by omega)
+    simp only [shareAll, groupLookupResult, if_true, List.map_cons, List.nodup_cons, List.mem_cons, List.mem_map]
+    refine ⟨by rw [I1], ?_, ?_, I3⟩
+    · intro m hm
+      rcases hm with rfl | hm
+      · simp
+      · have := I2 m hm; exact ⟨by omega, this.2⟩
+    · rintro ⟨m, hm, hma⟩
+      have := (I2 m hm).1
+      omega
+
 end SdnsVerif.Lemmas.Slab
